@@ -123,4 +123,84 @@ def queryName (q : DnsQuestion) : Except DecErr Bytes :=
 def queryNameV0 (q : DnsQuestion) : Except DecErr Bytes :=
   if utf8Valid q.qname then .ok q.qname else .error (.panic "panic:unwrap:dns_query_name")
 
+/-! ### The two places that decode a DNS datagram from the network
+
+`DnsServer::respond_to_query` (dns_server.rs) and the response handling of
+`DnsClient::get_host_by_name` (dns_client.rs), as pure functions of the datagram.
+`serverRespond` / `clientHandle` follow the CURRENT code (after the `fix:` commit for F-C14-4);
+the `…V0` versions are the code before it (counterexample theorems, `c14-dnssim-v0` stream). -/
+
+/-- the name → address table `DnsServer::start` installs
+    ("testserver.com" ↦ 123.45.67.15, "google.com" ↦ 123.45.67.60) -/
+def serverTable : List (Bytes × Nat) :=
+  [([0x74, 0x65, 0x73, 0x74, 0x73, 0x65, 0x72, 0x76, 0x65, 0x72, 0x2e, 0x63, 0x6f, 0x6d], 2066563855),
+   ([0x67, 0x6f, 0x6f, 0x67, 0x6c, 0x65, 0x2e, 0x63, 0x6f, 0x6d], 2066563900)]
+
+/-- `DnsServer::create_response` -/
+def createResponse (q : DnsMessage) (ip : Nat) : DnsMessage :=
+  { header := newHeader q.header.id true, question := newQuestion q.question.qname,
+    answer := newRecord q.answer.name q.answer.ttl ip }
+
+/-- `DnsServer::respond_to_query` on one datagram: `some reply` = the bytes sent back, `none` =
+    the task ended with `Err(DnsServerError)` (logged; nothing sent).  `socket.recv(80)` hands the
+    parser at most the first 80 bytes of the datagram. -/
+def serverRespond (datagram : Bytes) : Except DecErr (Option Bytes) :=
+  match fromBytes (datagram.take 80) with
+  | .error (.panic s) => .error (.panic s)
+  | .error _ => .ok none
+  | .ok (m, _) =>
+    match queryName m.question with
+    | .error (.panic s) => .error (.panic s)
+    | .error _ => .ok none
+    | .ok name =>
+      match serverTable.lookup name with
+      | none => .ok none
+      | some ip => .ok (some (toMessage (createResponse m ip)))
+
+/-- as it was: `from_bytes(..).unwrap()`, `query_name().unwrap()`, and the spawned task
+    `respond_to_query(..).await.unwrap()` (so an unknown name panicked as well) -/
+def serverRespondV0 (datagram : Bytes) : Except DecErr (Option Bytes) :=
+  match fromBytes (datagram.take 80) with
+  | .error (.panic s) => .error (.panic s)
+  | .error _ => .error (.panic "panic:unwrap:dns_server_from_bytes")
+  | .ok (m, _) =>
+    match queryName m.question with
+    | .error (.panic s) => .error (.panic s)
+    | .error _ => .error (.panic "panic:unwrap:dns_server_query_name")
+    | .ok name =>
+      match serverTable.lookup name with
+      | none => .error (.panic "panic:unwrap:dns_server_task")
+      | some ip => .ok (some (toMessage (createResponse m ip)))
+
+/-- the response handling of `DnsClient::get_host_by_name(name)` with an empty cache:
+    `some ip` = `Ok(ip)`, `none` = `Err(DnsClientError)` -/
+def clientHandle (name resp : Bytes) : Except DecErr (Option Nat) :=
+  match fromBytes resp with
+  | .error (.panic s) => .error (.panic s)
+  | .error _ => .ok none
+  | .ok (m, _) =>
+    if utf8Valid m.answer.name then
+      match m.answer.rdata with
+      | a :: b :: c :: d :: _ =>
+        if m.answer.name = name then
+          .ok (some (((a.toNat * 256 + b.toNat) * 256 + c.toNat) * 256 + d.toNat))
+        else .ok none
+      | _ => .ok none
+    else .ok none
+
+/-- as it was: every step unwrapped / indexed -/
+def clientHandleV0 (name resp : Bytes) : Except DecErr (Option Nat) :=
+  match fromBytes resp with
+  | .error (.panic s) => .error (.panic s)
+  | .error _ => .error (.panic "panic:unwrap:dns_client_from_bytes")
+  | .ok (m, _) =>
+    if utf8Valid m.answer.name then
+      match m.answer.rdata with
+      | a :: b :: c :: d :: _ =>
+        if m.answer.name = name then
+          .ok (some (((a.toNat * 256 + b.toNat) * 256 + c.toNat) * 256 + d.toNat))
+        else .error (.panic "panic:unwrap:dns_client_get_mapping")
+      | _ => .error (.panic "panic:index:dns_client_rdata")
+    else .error (.panic "panic:unwrap:dns_client_answer_name")
+
 end Elvis.CodecB.Dns
